@@ -375,6 +375,12 @@ func (u *upstream) handleRedirection(req *simpleRequest, resp *RespValue) {
 		// requests could be interleaved with the traffic of other sessions.
 		req.asking = true
 		u.MakeRequestToHost(hostAddr, req)
+	default:
+		// The caller matches the prefix with Unicode case folding, which
+		// also accepts e.g. "A\u017fK" (long s); that is not a redirection,
+		// the request must still be answered: pass the error on.
+		req.SetResponse(resp)
+		return
 	}
 	u.triggerSlotsRefresh()
 }
